@@ -63,6 +63,17 @@ def table_sum_events(env, rng, thorough):
                         else:
                             ev["exc"] = o[2]
                         events.append(ev)
+    # python integers held in list / tuple Arrays are added as python integers (no machine-word arithmetic)
+    for kind in (list, tuple):
+        for a_, b_, want_ in (([2 ** 62, 5], [2 ** 62, 7], [2 ** 63, 12]), ([-7 * 10 ** 18, 1], [7 * 10 ** 18, 1], None), ([2 ** 53 + 1, 1], [0, 0.5], [2 ** 53 + 1, 1.5])):
+            for opn in ("+", "-"):
+                A, B = Array("length", kind(a_), "mm"), Array("length", kind(b_), "mm")
+                o = P.outcome((lambda: A + B) if opn == "+" else (lambda: A - B))
+                want = [x + y if opn == "+" else x - y for x, y in zip(a_, b_)]
+                got = list(o[1].GetAbstractValue()) if o[0] == "ok" else None
+                events.append({"op": "SumAgrees", "call": "%s Array of python integers %r %s %r" % (kind.__name__, a_, opn, b_), "qtype": "length", "u": "mm", "v": "mm",
+                               "ok": o[0] == "ok", "ppt": 0 if got == want else 2 ** 31 - 1, "units_kept": o[0] == "ok" and o[1].GetUnit() == "mm", "left_kept": list(A.GetAbstractValue()) == a_,
+                               "want": repr(want), "got": repr(got)})
     return events
 
 
